@@ -124,6 +124,7 @@ type VC struct {
 	obls     []*Obligation
 	oblCount map[string]int
 	suppress int
+	interfCover bool
 
 	trusted   map[string]bool
 	havoced   map[string]bool
